@@ -13,8 +13,9 @@ MULTI_SECTION_OK = {
     ("MdkMemoryStorage", "rollback_group_to_snapshot"): "removes the snapshot from group_snapshots, then restores under one inner.write(); the removed snapshot is owned",
     ("MdkMemoryStorage", "save_message"): "existence check of the group (read) then insert (write): groups are only removed by a rollback of a group created after the "
                                           "snapshot, and a message for a vanished group is unreachable through the group-keyed API (benign check-then-act, F15)",
-    ("MdkSqliteStorage", "*"): "SQLite methods that verify the group exists before acting run two statements under two acquisitions of the connection mutex; "
-                               "the second statement is guarded by the FOREIGN KEY on groups(mls_group_id) or is read-only",
+    ("MdkSqliteStorage", "*"): "SQLite methods that first verify the group exists (find_group_by_mls_group_id, read-only) and then act in a second acquisition of "
+                               "the connection mutex; the second statement is guarded by the FOREIGN KEY on groups(mls_group_id) or is read-only. Only that "
+                               "existence pre-check is exempt: any other split is reported",
 }
 
 
@@ -157,8 +158,10 @@ def clause_sections(prog, rep):
                 if nacq <= 1:
                     rep.ok("one-critical-section", "%s::%s" % (adt, f.name), "the operation runs in %d critical section" % nacq, f.loc())
                 else:
-                    reason = MULTI_SECTION_OK.get((adt, f.name)) or MULTI_SECTION_OK.get((adt, "*"))
-                    if reason and (adt, f.name) in MULTI_SECTION_OK or (reason and adt == "MdkSqliteStorage"):
+                    reason = MULTI_SECTION_OK.get((adt, f.name))
+                    if reason is None and adt == "MdkSqliteStorage" and count_sections(prog, f, crate, skip=("find_group_by_mls_group_id",)) <= 1:
+                        reason = MULTI_SECTION_OK[(adt, "*")]
+                    if reason:
                         rep.ok("one-critical-section", "%s::%s" % (adt, f.name), "%d critical sections — listed exception: %s" % (nacq, reason), f.loc())
                     else:
                         rep.violation("one-critical-section", "%s::%s" % (adt, f.name),
@@ -167,7 +170,7 @@ def clause_sections(prog, rep):
         rep.floor("one-critical-section", "%s trait methods" % adt, k, 60)
 
 
-def count_sections(prog, f, crate, seen=None):
+def count_sections(prog, f, crate, seen=None, skip=()):
     """max number of lock acquisitions along one call of f (sum over call sites on the worst path is over-approximated by the
     number of distinct sites in f plus, per workspace callee call site, the callee's count)"""
     seen = seen or set()
@@ -180,14 +183,16 @@ def count_sections(prog, f, crate, seen=None):
             total += 1
             continue
         best = 0
+        if c.name in skip:
+            continue
         for t in prog.call_targets(c):
             if t.crate == crate and not t.is_test_like():
-                best = max(best, count_sections(prog, t, crate, seen))
+                best = max(best, count_sections(prog, t, crate, seen, skip))
         total += best
     # closures created here run where they are passed: count those that acquire
     for bb, s in f.stmts():
         if s.get("k") == "closure" and s["closure"] in prog.fns:
-            total += count_sections(prog, prog.fns[s["closure"]], crate, seen)
+            total += count_sections(prog, prog.fns[s["closure"]], crate, seen, skip)
     return total
 
 
